@@ -48,6 +48,7 @@ type tcpConnSpec struct {
 	N           int      `json:"n,omitempty"`
 	Fin         bool     `json:"fin"`
 	Validate    bool     `json:"validate,omitempty"`
+	CReset      bool     `json:"client_resets_at_the_end,omitempty"`  // once its upload has reached the target and it has the target's output, the client aborts the connection (RST)
 	TReset      bool     `json:"target_resets_after_reply,omitempty"` // the target reads the whole upload, replies, then resets the connection (monitor-only cases)
 	TFailAfter  int      `json:"target_write_fails_after,omitempty"`  // the connection to the target accepts this many bytes, then every write fails (monitor-only cases)
 	ConnectOK   bool     `json:"connect_ok"`
@@ -125,6 +126,7 @@ type tcpObs struct {
 	TargetAccepted int64                `json:"target_accepted,omitempty"` // TFailAfter cases: bytes the target connection accepted before failing
 	SinkHit        string               `json:"sink_hit,omitempty"`        // a non-public address the name resolves to received a connection
 	Reset          bool                 `json:"reset"`
+	EOFHeld        bool                 `json:"target_eof_not_seen_before_upload,omitempty"`
 	Panic          string               `json:"panic,omitempty"`
 	HandlerDone    bool                 `json:"handler_done"`
 	Port           int                  `json:"port"`
@@ -348,7 +350,8 @@ func runTCPConn(auth service.StreamAuthenticateFunc, sp *tcpConnSpec, tee *promT
 	}
 	ob.Port = port
 	tout := genBytes(sp.TOut[0], uint32(sp.TOut[1]))
-	var clientRaw int64 // bytes the client has received so far
+	var clientRaw int64  // bytes the client has received so far
+	var targetRead int64 // bytes the target has read so far
 	tStart := time.Now()
 	var tmu sync.Mutex
 	targetDone := make(chan struct{})
@@ -380,7 +383,15 @@ func runTCPConn(auth service.StreamAuthenticateFunc, sp *tcpConnSpec, tee *promT
 			c.SetDeadline(time.Now().Add(8 * time.Second))
 			read := func() {
 				var buf bytes.Buffer
-				io.Copy(&buf, c)
+				tmp := make([]byte, 32768)
+				for {
+					n, err := c.Read(tmp)
+					buf.Write(tmp[:n])
+					atomic.AddInt64(&targetRead, int64(n))
+					if err != nil {
+						break
+					}
+				}
 				tmu.Lock()
 				ob.TargetGot = buf.Bytes()
 				tmu.Unlock()
@@ -521,6 +532,7 @@ func runTCPConn(auth service.StreamAuthenticateFunc, sp *tcpConnSpec, tee *promT
 			select {
 			case <-eofSeen:
 			case <-time.After(1500 * time.Millisecond):
+				ob.EOFHeld = true // the target finished long ago; its end-of-stream has not reached the client
 			}
 			tc.Write(wire[firstLen:])
 			return
@@ -561,7 +573,19 @@ func runTCPConn(auth service.StreamAuthenticateFunc, sp *tcpConnSpec, tee *promT
 	ob.RawSent = len(wire)
 	closedAt := time.Duration(-1)
 	var rerr error
-	if sp.Fin {
+	if sp.CReset {
+		// abort only when nothing is in flight any more: the target has the whole upload and the
+		// client has the target's output (then the outcome does not depend on what a reset discards)
+		_, payload, _ := clientWire(sp, port)
+		for w := 0; w < 600 && (atomic.LoadInt64(&targetRead) < int64(len(payload)) || atomic.LoadInt64(&clientRaw) < int64(len(tout))); w++ {
+			time.Sleep(5 * time.Millisecond)
+		}
+		time.Sleep(30 * time.Millisecond)
+		tc.SetLinger(0)
+		tc.Close()
+		ob.Close = 7
+		<-readDone
+	} else if sp.Fin {
 		tc.CloseWrite()
 		select {
 		case rerr = <-readDone:
@@ -699,8 +723,8 @@ func tcpConnTerm(sp *tcpConnSpec, port int) string {
 		}
 		kind = fmt.Sprintf("CHonest %d %d %d %d %d %s %s %d", sp.C, sp.S, sp.Seed, sp.AKind, port, cListT("(N * N)", cs), cBool(sp.Coalesce), corrupt)
 	}
-	return fmt.Sprintf("{| k_kind := %s; k_fin := %s; k_validate := %s; k_connect_ok := %s; k_tout := (%d, %d); k_tlate := (%d, %d); k_treset := %s |}",
-		kind, cBool(sp.Fin), cBool(sp.Validate), cBool(sp.ConnectOK), sp.TOut[0], sp.TOut[1], sp.TLate[0], sp.TLate[1], cBool(sp.TReset))
+	return fmt.Sprintf("{| k_kind := %s; k_fin := %s; k_validate := %s; k_connect_ok := %s; k_tout := (%d, %d); k_tlate := (%d, %d); k_treset := %s; k_creset := %s |}",
+		kind, cBool(sp.Fin), cBool(sp.Validate), cBool(sp.ConnectOK), sp.TOut[0], sp.TOut[1], sp.TLate[0], sp.TLate[1], cBool(sp.TReset), cBool(sp.CReset))
 }
 
 // boundNotListening reserves a TCP port with a socket that is bound but not listening:
